@@ -256,7 +256,7 @@ func clip(s string) string {
 
 var hostileStrings = []string{
 	"", "a", "v1", "x y", " lead", "trail ", "q\"uote", "s'ingle", "back\\slash", "\\\"", "new\nline", "cr\r\nlf", "tab\there",
-	"comma,k=v", "k=v", "=", ",", "\\", "\"", "ünïcödé", "日本語テキスト", "😀🚀", "\x00nul\x00", "  ", "﻿bom", "é",
+	"comma,k=v", "k=v", "=", ",", "\\", "\"", "ünïcödé", "日本語テキスト", "😀🚀", "\x00nul\x00", "  ", "\ufeffbom", "é",
 	"null", "true", "1", "-0", "NaN", "1i", "host=a,dc=b", "\x7f", " ",
 }
 
@@ -276,19 +276,40 @@ func longString(n int, seed int) string {
 	return s
 }
 
+// bigLeft bounds the number of >= 4000 byte strings per case (reset by the case generators;
+// generation is sequential, so this is a pure function of the draws).
+var bigLeft int
+
+// excludeHook counts input classes the generator avoids by construction (kit.Rec.Exclude).
+var excludeHook func(class string)
+
 // genStr draws a valid-UTF-8 string: mostly from the hostile pool, sometimes arbitrary,
 // sometimes long enough to need a 2- or 3-byte length prefix / exceed bufio's buffer.
 func genStr(t *rapid.T, label string) string {
 	k := rapid.IntRange(0, 99).Draw(t, label+"/class")
+	if k >= 96 {
+		if bigLeft <= 0 {
+			k = 90
+		}
+		bigLeft--
+	}
 	switch {
 	case k < 62:
 		return rapid.SampledFrom(hostileStrings).Draw(t, label)
-	case k < 86:
+	case k < 84:
 		s := rapid.String().Draw(t, label)
 		if !utf8.ValidString(s) {
 			s = strings.ToValidUTF8(s, "?")
 		}
 		return s
+	case k < 86:
+		// the class "string that is not valid UTF-8" (line protocol accepts such tag values and
+		// string fields) is avoided by construction: proto3 refuses to marshal it and the server
+		// aborts (witness replays/C19/Echo-invalid-utf8-string-aborts-server.json)
+		if excludeHook != nil {
+			excludeHook("string-not-valid-utf8")
+		}
+		return strings.ToValidUTF8("caf\xe9 \xff\xfe"+rapid.SampledFrom(hostileStrings).Draw(t, label), "\ufffd")
 	case k < 96:
 		return longString(rapid.SampledFrom([]int{120, 127, 128, 130, 200, 300}).Draw(t, label+"/len"), k)
 	case k < 99:
@@ -299,7 +320,7 @@ func genStr(t *rapid.T, label string) string {
 }
 
 func genKey(t *rapid.T, label string) string {
-	if rapid.IntRange(0, 19).Draw(t, label+"/class") == 0 {
+	if rapid.IntRange(0, 19).Draw(t, label+"/class") == 19 {
 		return longString(rapid.SampledFrom([]int{127, 140}).Draw(t, label+"/len"), 0)
 	}
 	return rapid.SampledFrom(keyPool).Draw(t, label)
@@ -383,6 +404,12 @@ func genBytes(t *rapid.T, label string) []byte {
 		return []byte{0}
 	case 3:
 		n := rapid.SampledFrom([]int{126, 127, 128, 129, 300, 4090, 4096, 5000, 16384, 20000}).Draw(t, label+"/len")
+		if n >= 4000 {
+			if bigLeft <= 0 {
+				n = 300
+			}
+			bigLeft--
+		}
 		b := make([]byte, n)
 		x := byte(rapid.IntRange(0, 255).Draw(t, label+"/fill"))
 		for i := range b {
